@@ -261,9 +261,19 @@ fn server(toks: &[&str], idle: bool) -> String {
     let log2 = log.clone();
     let permit = Permit::new();
     let executor = safina::executor::Executor::new(2, 2).unwrap();
-    let mut builder = HttpServerBuilder::new().max_conns(4).small_body_len(small).permit(permit.new_sub());
-    if let Some(dir) = &cache {
-        builder = builder.receive_large_bodies(dir);
+    // the builder's setters are independent of each other: the two orders of small_body_len and
+    // receive_large_bodies are used alternately (odd thresholds: cache dir first)
+    let mut builder = HttpServerBuilder::new().max_conns(4).permit(permit.new_sub());
+    if small % 2 == 1 {
+        if let Some(dir) = &cache {
+            builder = builder.receive_large_bodies(dir);
+        }
+        builder = builder.small_body_len(small);
+    } else {
+        builder = builder.small_body_len(small);
+        if let Some(dir) = &cache {
+            builder = builder.receive_large_bodies(dir);
+        }
     }
     let (addr, stopped) = executor
         .block_on(builder.spawn(move |req: Request| scripted(req, &log2)))
